@@ -143,6 +143,27 @@ func hostProxy(ctx context.Context, host, shimPath string, injectShimCode, force
 	return banner.Proxy(ctx, h, *injectBanner, *bannerHeight, *favIconURL, metricHandler)
 }
 
+// removeConnectionOption removes the given header name from the options
+// listed in the "Connection" header, leaving the other options in place.
+func removeConnectionOption(h http.Header, name string) {
+	values := h.Values("Connection")
+	if len(values) == 0 {
+		return
+	}
+	h.Del("Connection")
+	for _, v := range values {
+		var kept []string
+		for _, option := range strings.Split(v, ",") {
+			if !strings.EqualFold(strings.TrimSpace(option), name) {
+				kept = append(kept, option)
+			}
+		}
+		if len(kept) > 0 {
+			h.Add("Connection", strings.Join(kept, ","))
+		}
+	}
+}
+
 // forwardRequest forwards the given request from the proxy to
 // the backend server and reports the response back to the proxy.
 func forwardRequest(client *http.Client, hostProxy http.Handler, request *utils.ForwardedRequest) error {
@@ -152,6 +173,9 @@ func forwardRequest(client *http.Client, hostProxy http.Handler, request *utils.
 	}
 	if *forwardUserID {
 		httpRequest.Header.Set(utils.HeaderUserID, request.User)
+		// The reverse proxy drops every header that the client lists in its "Connection" header.
+		// Do not let the client get rid of the asserted user ID that way.
+		removeConnectionOption(httpRequest.Header, utils.HeaderUserID)
 	}
 	if *stripCredentials {
 		httpRequest.Header.Del(headerAuthorization)
